@@ -160,6 +160,16 @@ Definition rotate (d : deque) (n0 : Z) : option deque :=
         let '(b, h, t) := r in
         Some (mkDeque b h t (count d) (minCap d)).
 
+(* SetMinCapacity(minCapacityExp uint): "if 1<<minCapacityExp > minCapacity { q.minCap = 1 <<
+   minCapacityExp } else { q.minCap = minCapacity }".  The shift is done in int (64 bits):
+   1<<63 is negative and 1<<e is 0 for e >= 64, so those exponents select minCapacity. *)
+Definition shl1 (e : Z) : Z :=
+  if (0 <=? e) && (e <? 63) then 2 ^ e else if e =? 63 then - 2 ^ 63 else 0.
+
+Definition set_min_cap (d : deque) (e : Z) : deque :=
+  mkDeque (buf d) (head d) (tail d) (count d)
+          (if shl1 e >? collections_queue_minCapacity then shl1 e else collections_queue_minCapacity).
+
 Definition crash_or {X} (d : deque) (r : option X) (f : X -> deque * out A) : deque * out A :=
   match r with Some x => f x | None => (d, OCrash) end.
 
@@ -182,6 +192,7 @@ Definition step (d : deque) (o : op A) : deque * out A :=
                         (fun b => (mkDeque b (head d) (tail d) (count d) (minCap d), ONone))
   | Clear => crash_or d (clear d) (fun d' => (d', ONone))
   | Rotate n => crash_or d (rotate d n) (fun d' => (d', ONone))
+  | SetMinCap e => (set_min_cap d e, ONone)
   end.
 
 Fixpoint run (d : deque) (ops : list (op A)) : deque * list (out A) :=
